@@ -243,7 +243,7 @@ func isLondon(h *Header) bool {
 	if isTest {
 		return h.Number.Uint64() >= testLondonHeight
 	}
-	return h.BaseFee != nil || h.Number.Uint64() >= config.GetEth1559Height(config.DefConfig.P2PNode.NetworkId)
+	return h.Number.Uint64() >= config.GetEth1559Height(config.DefConfig.P2PNode.NetworkId)
 }
 
 func isArrowGlacier(h *Header) bool {
